@@ -27,7 +27,7 @@ ASSUMPTIONS = ['completion orders are owned and enumerated by the harness; pre-e
 def budget(tier):
     if tier == 'quick':
         return {'shards': 16, 'examples': 22, 'wall': 300, 'shrink_wall': 90}
-    return {'shards': 16, 'examples': 900, 'wall': 2700, 'shrink_wall': 300}
+    return {'shards': 16, 'examples': 350, 'wall': 2700, 'shrink_wall': 300}
 
 
 @st.composite
